@@ -191,6 +191,15 @@ def shipped_names(max_cl_items: int = 40) -> list[str]:
     return sorted(names)
 
 
+#: (no "huge_thin": a 10^9 x 4 bin is admitted by InstanceSpace, but cutting
+#: it gives items like 10^9 x 3, which Instance.__new__ cuts into 3*10^8
+#: squares - more than 8 GB; "int32_edge_thin" bins exceed 10^9 and are
+#: always rejected, which exercises the clean-rejection path cheaply)
+TEMPLATE_CLASSES = ("tiny", "small", "medium", "int8_edge", "small",
+                    "medium", "nitems_edge", "int16_edge_thin",
+                    "int32_edge_thin")
+
+
 @st.composite
 def decoder_cases(draw: Any, names: list[str], max_items: int = 14,
                   max_k: int = 12) -> dict:
@@ -212,9 +221,11 @@ def decoder_cases(draw: Any, names: list[str], max_items: int = 14,
         n_items = _shipped_n_items(name)
     else:
         if kind == "gen":
-            # all size classes: bins above 10^9 (int32 edge, huge) are
-            # rejected by InstanceSpace with ValueError - counted
-            ic = draw(gen_bp.instances(classes=gen_bp.CLASSES_ALL,
+            # bins above 10^9 (int32 edge) are rejected by
+            # InstanceSpace with ValueError - counted. Not int16_2d: cutting
+            # a 16380 x 16380 bin yields items like 16380 x 2, for which
+            # Instance.__new__ needs minutes and gigabytes (DESIGN.md O3).
+            ic = draw(gen_bp.instances(classes=TEMPLATE_CLASSES,
                                        max_items=max_items))
         elif kind == "tiny":
             ic = draw(gen_bp.instances(classes=("tiny", "small"),
